@@ -218,3 +218,61 @@ def server(t0: int, t1: int) -> bool:
                 break
     tock("server")
     return ok
+
+
+FIELDS = ["{langid.__class__.__mro__[1]}", "{0}", "{langid!r:>30}", "{langid.__class__.__init__.__globals__}", "{}", "{{x}}", "%(x)s %s",
+          "${HOME} `id` $(id)"]
+
+
+def _strings(x):
+    if isinstance(x, str):
+        yield x
+    elif isinstance(x, dict):
+        for v in x.values():
+            yield from _strings(v)
+    elif isinstance(x, (list, tuple)):
+        for v in x:
+            yield from _strings(v)
+
+
+def docfields(k: int) -> bool:
+    """documentation comments are data: replacement fields / format directives / shell syntax written in doc comments of
+    variables, procedures and the specific procedures of a generic interface come back verbatim in hover, signature help
+    and completion - never evaluated (attribute access through str.format), never an error
+    pre: 0 <= k < len(FIELDS)
+    post: _
+    """
+    tick("docfields")
+    k = conc(k, 0, len(FIELDS) - 1)
+    ok = True
+    with NoTracing():
+        fld = FIELDS[k]
+        text = ("module dm\n  !> var doc " + fld + "\n  integer :: dv\n  interface gen\n    module procedure spec\n  end interface gen\ncontains\n"
+                "  !> proc doc " + fld + "\n  subroutine spec(a)\n    integer :: a !< arg doc " + fld + "\n  end subroutine spec\n"
+                "  subroutine user()\n    dv = 1\n    call gen(dv)\n    call spec(dv)\n  end subroutine user\nend module dm\n")
+        path = ws.ROOT + "/dm.f90"
+        lines = text.split("\n")
+
+        def run():
+            srv = ws.reset(SRV, {path: text})
+            out = []
+            for ln, word in ((12, "dv"), (13, "gen"), (14, "spec")):
+                col = lines[ln].index(word) + 1
+                for meth in ("textDocument/hover", "textDocument/completion"):
+                    out.append(ws.request(srv, meth, path, ln, col))
+            for ln in (13, 14):
+                out.append(ws.request(srv, "textDocument/signatureHelp", path, ln, lines[ln].index("(") + 1))
+            RES[:] = out
+        ev = monitored(run)
+        texts = [t for r in RES for t in _strings(r[1] if r and r[0] == "resp" else None)]
+        bad = [r for r in RES if not r or r[0] != "resp"]
+        evaluated = [t for t in texts if "<class" in t or "__globals__'" in t or "{'" in t]
+        verbatim = sum(1 for t in texts if fld in t)
+        if ev or bad or evaluated or verbatim < 3:
+            FAIL.append((fld, ev, bad[:2], evaluated[:2], verbatim))
+            ok = False
+    tock("docfields")
+    return ok
+
+
+RES = []
